@@ -41,24 +41,37 @@ Section Refine.
   Variable hdrdec : bytes -> option (list bytes * N).
 
   (* a constructed archive within the limits of the options it is opened with *)
-  Record arch_ok (o : qopts) (roots : list bytes) (bs : list block) (npad : N) : Prop := {
-    ao_hdr : hdr_good hdrdec roots;
-    ao_hmax : blen (enc_header (Some roots) 1) <= q_maxh o;
-    ao_h63 : blen (enc_header (Some roots) 1) < two63;
+  Record arch_ok (o : qopts) (ro : option (list bytes)) (bs : list block) (npad : N) : Prop := {
+    ao_hdr : hdrdec (enc_header ro 1) = Some (hdr_roots ro, 1);
+    ao_hmax : blen (enc_header ro 1) <= q_maxh o;
+    ao_h63 : blen (enc_header ro 1) < two63;
     ao_blocks : Forall (rblock_ok (q_maxs o) (q_maxcid o)) bs;
     ao_npad : npad = 0 \/ q_zeof o = true }.
 
-  Definition hdr_len (roots : list bytes) : N := ld_size (blen (enc_header (Some roots) 1)).
+  Definition hdr_len (ro : option (list bytes)) : N := ld_size (blen (enc_header ro 1)).
+
+  Lemma blen_enc_header_roots ro v : blen (enc_header (Some (hdr_roots ro)) v) = blen (enc_header ro v).
+  Proof. destruct ro as [r|]; reflexivity. Qed.
+
+  Lemma read_header_ld maxh ro rest :
+    hdrdec (enc_header ro 1) = Some (hdr_roots ro, 1) ->
+    blen (enc_header ro 1) <= maxh -> blen (enc_header ro 1) < two63 ->
+    read_header hdrdec maxh (ld (enc_header ro 1) ++ rest)
+    = Ok (hdr_roots ro, 1, rest, ld_size (blen (enc_header ro 1))).
+  Proof.
+    intros Hg Hmax H63. unfold read_header. rewrite ld_read_ld; try assumption; [|discriminate].
+    rewrite Hg. reflexivity.
+  Qed.
 
   Lemma payload_np_split roots bs npad :
-    payload_np roots bs npad = ld (enc_header (Some roots) 1) ++ enc_sections bs ++ zerosN npad.
-  Proof. unfold payload_np, enc_payload. rewrite <- app_assoc. reflexivity. Qed.
+    payload_np roots bs npad = ld (enc_header roots 1) ++ enc_sections bs ++ zerosN npad.
+  Proof. unfold payload_np. rewrite <- app_assoc. reflexivity. Qed.
 
   Lemma payload_read_header o roots bs npad : arch_ok o roots bs npad ->
     read_header hdrdec (q_maxh o) (payload_np roots bs npad)
-    = Ok (roots, 1, enc_sections bs ++ zerosN npad, hdr_len roots).
+    = Ok (hdr_roots roots, 1, enc_sections bs ++ zerosN npad, hdr_len roots).
   Proof.
-    intros H. rewrite payload_np_split. apply read_header_payload; [apply (ao_hdr _ _ _ _ H)|apply (ao_hmax _ _ _ _ H)|apply (ao_h63 _ _ _ _ H)].
+    intros H. rewrite payload_np_split. apply read_header_ld; [apply (ao_hdr _ _ _ _ H)|apply (ao_hmax _ _ _ _ H)|apply (ao_h63 _ _ _ _ H)].
   Qed.
 
   (* LoadIndex over the payload yields exactly the section records *)
@@ -69,7 +82,7 @@ Section Refine.
   Proof.
     intros H Hb. unfold load_records. rewrite (payload_read_header o roots bs npad H).
     cbn [N.eqb Pos.eqb]. unfold hdr_len. rewrite <- blen_ld.
-    rewrite (li_scan_sections o base (payload_np roots bs npad) npad bs (ld (enc_header (Some roots) 1)) []).
+    rewrite (li_scan_sections o base (payload_np roots bs npad) npad bs (ld (enc_header roots 1)) []).
     - unfold payload_records. rewrite blen_ld. reflexivity.
     - apply (ao_blocks _ _ _ _ H).
     - apply payload_np_split.
@@ -86,7 +99,7 @@ Section Refine.
   Proof.
     unfold payload_records. rewrite sect_records_in. intros (b & p & Hin & Hp & _ & Hr).
     rewrite <- blen_ld in Hin.
-    destruct (locate_sec_at bs (ld (enc_header (Some roots) 1)) (zerosN npad) (payload_np roots bs npad)
+    destruct (locate_sec_at bs (ld (enc_header roots 1)) (zerosN npad) (payload_np roots bs npad)
                 (payload_np_split roots bs npad) (r_off r) b Hin) as [Hs Hb].
     exists b, p. repeat split; assumption.
   Qed.
@@ -100,7 +113,7 @@ Section Refine.
     exists off. split.
     - unfold payload_records. rewrite sect_records_in. exists b, p. cbn [r_off]. repeat split; assumption.
     - unfold hdr_len in Hl. rewrite <- blen_ld in Hl.
-      apply (locate_sec_at bs (ld (enc_header (Some roots) 1)) (zerosN npad) _ (payload_np_split roots bs npad) off b Hl).
+      apply (locate_sec_at bs (ld (enc_header roots 1)) (zerosN npad) _ (payload_np_split roots bs npad) off b Hl).
   Qed.
 
   (* ---- FindCid against a correct index over the payload ------------------------------------------- *)
@@ -118,7 +131,7 @@ Section Refine.
 
   (* the store states the theorems talk about: backing = the payload, options o, index correct for
      the records of the sections kept under identity setting wid *)
-  Definition opened (s : rostate) (o : qopts) (wid : bool) (roots : list bytes) (bs : list block) (npad : N) : Prop :=
+  Definition opened (s : rostate) (o : qopts) (wid : bool) (roots : option (list bytes)) (bs : list block) (npad : N) : Prop :=
     s_view s = payload_np roots bs npad /\ s_opts s = o /\
     idx_correct (s_idx s) (payload_records wid roots bs).
 
@@ -297,8 +310,8 @@ Section Refine.
   Proof.
     intros Ha (Hv & Hopts & _) H63. unfold ro_keys. rewrite Hv, Hopts.
     rewrite (payload_read_header o roots bs npad Ha).
-    rewrite <- blen_ld.
-    rewrite (keys_scan_sections s npad bs (ld (enc_header (Some roots) 1)) []).
+    rewrite blen_enc_header_roots. rewrite <- blen_ld.
+    rewrite (keys_scan_sections s npad bs (ld (enc_header roots 1)) []).
     - rewrite Hopts. reflexivity.
     - rewrite Hopts. apply (ao_blocks _ _ _ _ Ha).
     - rewrite Hv. apply payload_np_split.
@@ -309,7 +322,7 @@ Section Refine.
 
   Theorem ro_roots_spec s o wid roots bs npad :
     arch_ok o roots bs npad -> opened s o wid roots bs npad ->
-    ro_roots hdrdec s = OKeys roots.
+    ro_roots hdrdec s = OKeys (hdr_roots roots).
   Proof.
     intros Ha (Hv & Hopts & _). unfold ro_roots. rewrite Hv, Hopts.
     rewrite (payload_read_header o roots bs npad Ha). reflexivity.
